@@ -59,6 +59,20 @@ class SimItem(A.BatchItemBase):
 
 
 
+class SimItemEq(SimItem):
+    """A batch item class with value semantics: equal (and equally hashed) when the keys are
+    equal - also across batch kinds."""
+
+    def __eq__(self, other):
+        return isinstance(other, SimItemEq) and other.key == self.key
+
+    def __ne__(self, other):
+        return not self.__eq__(other)
+
+    def __hash__(self):
+        return hash(("simitem", self.key))
+
+
 class SimBatch(A.BatchBase):
     def __init__(self, B, kind, gen):
         A.BatchBase.__init__(self)
@@ -94,7 +108,13 @@ class SimBatch(A.BatchBase):
             p = p[1]
         else:
             p = tuple(p)
-        self.B.prio_log.append((self, p))
+        B = self.B
+        B.nprio_calls = getattr(B, "nprio_calls", 0) + 1
+        pf = B.spec.get("faults", {}).get("prio_raises")
+        if pf and B.nprio_calls == pf:
+            B.fired("get_priority_raises")
+            raise SimError("pr:%d" % pf)
+        B.prio_log.append((self, p))
         return p
 
     def _flush(self):
@@ -192,10 +212,12 @@ class _CtxMixin(object):
             B.viol("C06", "alternation", "context %s resumed twice without a pause in between" % self.cid)
         self.active = True
         B.active_stack.append(self)
+        if getattr(self, "left", False):
+            B.viol("C06", "events-after-exit", "context %s resumed after its block was left" % self.cid)
         f = B.ctx_faults.get(self.cid)
         if f and f[0] == "resume" and f[1] == self.nres:
             B.fired("ctx_resume_raises")
-            e = SimError("cr:%s#%d" % (self.cid, self.nres))
+            e = (SimBaseError if len(f) > 2 and f[2] == "base" else SimError)("cr:%s#%d" % (self.cid, self.nres))
             B.errors[e.tag] = e
             raise e
 
@@ -219,9 +241,10 @@ class _CtxMixin(object):
         f = B.ctx_faults.get(self.cid)
         if f and f[0] == "pause" and f[1] == self.npause:
             B.fired("ctx_pause_raises")
-            e = SimError("cp:%s#%d" % (self.cid, self.npause))
+            e = (SimBaseError if len(f) > 2 and f[2] == "base" else SimError)("cp:%s#%d" % (self.cid, self.npause))
             B.errors[e.tag] = e
-            raise e
+            return e  # raised by the caller *after* the context has undone its own effect
+        return None
 
 
 class SimContext(_CtxMixin, A.AsyncContext):
@@ -232,7 +255,9 @@ class SimContext(_CtxMixin, A.AsyncContext):
         self._log_resume()
 
     def pause(self):
-        self._log_pause()
+        e = self._log_pause()
+        if e is not None:
+            raise e
 
     def __repr__(self):
         return "SimContext(%s)" % self.cid
@@ -248,8 +273,10 @@ class SimOverride(_CtxMixin, _sv._AsyncScopedValueOverrideContext):
         _sv._AsyncScopedValueOverrideContext.resume(self)
 
     def pause(self):
-        self._log_pause()
+        e = self._log_pause()
         _sv._AsyncScopedValueOverrideContext.pause(self)
+        if e is not None:
+            raise e
 
 
 class SimAttrOverride(_CtxMixin, _sv._AsyncPropertyOverrideContext):
@@ -262,8 +289,10 @@ class SimAttrOverride(_CtxMixin, _sv._AsyncPropertyOverrideContext):
         _sv._AsyncPropertyOverrideContext.resume(self)
 
     def pause(self):
-        self._log_pause()
+        e = self._log_pause()
         _sv._AsyncPropertyOverrideContext.pause(self)
+        if e is not None:
+            raise e
 
 
 class SimTimer(_CtxMixin, _tools.AsyncTimer):
@@ -276,8 +305,10 @@ class SimTimer(_CtxMixin, _tools.AsyncTimer):
         _tools.AsyncTimer.resume(self)
 
     def pause(self):
-        self._log_pause()
+        e = self._log_pause()
         _tools.AsyncTimer.pause(self)
+        if e is not None:
+            raise e
 
 
 class SimNonAsync(A.NonAsyncContext):
@@ -632,6 +663,16 @@ class RealBackend(object):
         esc = inst.escaped
         if esc is not None and err is not esc and "C02" in self.mon:
             self.viol("C02", "own-failure", "task %s failed with %s but its body raised %s" % (inst.token, errtok(err) if err is not None else "a value", errtok(esc)))
+        if self.spec.get("cb_ctx") and (len(self.trace) + len(inst.token)) % 3 == 0:
+            # a completion subscriber that works inside a context of its own
+            self.probes["context_inside_on_computed"] += 1
+            cm = SimContext(self, "cb.%s" % inst.token, inst)
+            self.ctx_enter(inst, cm)
+            try:
+                with cm:
+                    self.ctx_entered(inst, cm)
+            finally:
+                self.ctx_exit(inst, cm)
         f = self.cb_faults.get(inst.token)
         if f:
             self.fired("callback_raises")
@@ -646,7 +687,7 @@ class RealBackend(object):
         if kind in self.debug_kinds:
             it = SimDebugItem(self, tok, kind, key)
         else:
-            it = SimItem(self.current[kind], tok, key, self)
+            it = (SimItemEq if self.spec.get("item_eq") else SimItem)(self.current[kind], tok, key, self)
         self.items[tok] = it
         self.ev("item", tok, it.batch.bid)
         return it
@@ -1035,6 +1076,7 @@ class RealBackend(object):
         self.ev("exit", cm.cid)
         if cm.kind != "na" and cm.entered:
             cm.entered = False
+            cm.left = True
             if cm in self.live_ctx:
                 self.live_ctx.remove(cm)
             if cm.active:
@@ -1133,6 +1175,10 @@ class RealBackend(object):
                 self.viol("C05", "flush-after-done", "flush of %s although the waited task %s is already complete" % (bid, r.token))
         if "C04" in self.mon and self.yield_only:
             self._check_no_runnable(bid)
+        if "C07" in self.mon and not self.chain:
+            vals = [sv.get() for sv in self.svs] + [self.attr.x]
+            if vals != self.defaults:
+                self.viol("C07", "read-at-flush", "during the flush of %s (no task is running) the scoped values read %r instead of %r" % (bid, vals, self.defaults))
         if "C06" in self.mon and self.live_ctx:
             if self.chain:
                 # flush issued by a synchronous wait nested inside the running task chain[-1]:
@@ -1145,6 +1191,13 @@ class RealBackend(object):
                                   % (cm.cid, cm.owner.token, bid))
         self.prio_log = []
         self.sched_stack_push(batch)
+        bf = self.spec.get("faults", {}).get("before_hook_raises")
+        if bf and self.probes["sched_flush"] == bf:
+            self.fired("before_flush_hook_raises")
+            prev = getattr(self, "_sched_prev", [])
+            self.sched_flush = prev.pop() if prev else None
+            self.before_after.pop()
+            raise SimError("bh:%d" % bf)
 
     def sched_stack_push(self, batch):
         self._sched_prev = getattr(self, "_sched_prev", [])
@@ -1248,6 +1301,13 @@ class RealBackend(object):
             self.probes["flush_in_nested_wait"] += 1
         if self.flush_hook is not None:
             self.flush_hook(batch)
+        pre_plan = self.flush_faults.get("%d#%d" % (kind, ordn))
+        if pre_plan and pre_plan.get("reenter") and pre_plan.get("reenter_first"):
+            self.fired("flush_reenters")
+            k2 = pre_plan["reenter"] % self.spec["kinds"]
+            if self.current[k2] is None or k2 in self.debug_kinds:
+                k2 = kind
+            self._reenter(kind, ordn, k2)
         if self.probe_rng is not None and self.probe_rate and self.probes["probe_points"] < 150 and self.probe_rng.random() < self.probe_rate:
             self._probe_all("flush body of %s" % batch.bid)
         if self.outcome_rate and self.probes["outcome_probe_points"] < 150 and self.probe_rng.random() < self.outcome_rate:
@@ -1277,7 +1337,7 @@ class RealBackend(object):
                 it.set_error(e)
             else:
                 it.set_value("%d:%s" % (kind, it.key))
-        if plan and plan.get("reenter"):
+        if plan and plan.get("reenter") and not plan.get("reenter_first"):
             self.fired("flush_reenters")
             k2 = plan["reenter"] % self.spec["kinds"]
             if self.current[k2] is None or k2 in self.debug_kinds:
@@ -1338,7 +1398,13 @@ class RealBackend(object):
         self.setup()
         CUR.B = self
         spec = self.spec
-        root = Inst("r", spec["root"]["tmpl"], [])
+        ext = []
+        for j, tmpl in enumerate(spec.get("ext_tasks", [])):
+            if isinstance(tmpl, int) and 0 < tmpl < len(spec["templates"]):
+                # created at top level (no creator), evaluated later from inside the computation
+                ei = Inst("e%d" % j, tmpl, [])
+                ext.append(self.call(None, ei))
+        root = Inst("r", spec["root"]["tmpl"], ext)
         self.root = root
         self.insts["r"] = root
         conv = spec["root"].get("conv", "call")
